@@ -706,10 +706,13 @@ impl Xot {
                     } => {
                         if prefix.as_str() == "xmlns" {
                             let span = Span::from_prefix_name(prefix, local);
-                            builder.prefix(local.as_str(), value.as_str(), span, self)?;
+                            // the namespace name is the normalized attribute value
+                            let uri = parse_attribute(value.as_str().into(), value.start())?;
+                            builder.prefix(local.as_str(), &uri, span, self)?;
                         } else if local.as_str() == "xmlns" {
                             let span = Span::from_prefix_name(prefix, local);
-                            builder.prefix("", value.as_str(), span, self)?;
+                            let uri = parse_attribute(value.as_str().into(), value.start())?;
+                            builder.prefix("", &uri, span, self)?;
                         } else {
                             builder.attribute(prefix, local, value)?;
                         }
